@@ -592,8 +592,8 @@ class ArchitectureFeatures:
 
         if self.vela_config is not None and self.vela_config.has_section(sys_cfg_section):
             self.core_clock = float(self._read_config(sys_cfg_section, "core_clock", self.core_clock))
-            self.axi0_port = MemArea[self._read_config(sys_cfg_section, "axi0_port", self.axi0_port)]
-            self.axi1_port = MemArea[self._read_config(sys_cfg_section, "axi1_port", self.axi1_port)]
+            self.axi0_port = self._read_port(sys_cfg_section, "axi0_port", self.axi0_port)
+            self.axi1_port = self._read_port(sys_cfg_section, "axi1_port", self.axi1_port)
 
             for mem_area in (self.axi0_port, self.axi1_port):
                 self.memory_clock_scales[mem_area] = float(
@@ -743,6 +743,13 @@ class ArchitectureFeatures:
             print(f"   permanent_storage_mem_area = {self.permanent_storage_mem_area.name}")
             print(f"   feature_map_storage_mem_area = {self.feature_map_storage_mem_area.name}")
             print(f"   fast_storage_mem_area = {self.fast_storage_mem_area.name}")
+
+    def _read_port(self, section, key, default):
+        """Reads an AXI port option; the value (or the default) must name a memory area"""
+        name = self._read_config(section, key, default.name)
+        if name not in MemArea.__members__:
+            raise ConfigOptionError(key, name, ", ".join(area.name for area in MemArea.all()))
+        return MemArea[name]
 
     def _read_config(self, section, key, current_value, found=None, _visited=None):
         """
